@@ -236,6 +236,9 @@ STRUCT += [
     ("user-twin-b-again", "TwinB", {"workDoneToken": 7, "traceLevel": "off"}),
     ("user-twin-a-again", "TwinA", {"traceLevel": 0}),
     ("user-local-a", "LocalA", {"firstName": "a", "retryCount": 3}),
+    ("user-unresolvable", "UserBroken", {"ident": 1}),
+    ("user-holder-of-unresolvable", "UserHolder", {"position": {"line": 1, "character": 2}, "inner": {"ident": 2}}),
+    ("user-holder-without-it", "UserHolder", {"position": {"line": 3, "character": 4}}),
     ("user-local-b", "LocalB", {"retryCount": "many", "lastSeenVersion": 2, "firstName": ["x", "y"]}),
 ]
 
